@@ -54,6 +54,8 @@ def sdoc_of(ad, catvals):
       s.append({"p": "Display", "v": _tokv("DisplayType", ad["rdisp"][r])})
     if ad["rbg"][r] == "whenActive":
       s.append({"p": "ShowBackground", "v": _tokv("ShowBackgroundType", "whenActive")})
+    elif ad.get("ishowbg"):
+      s.append({"p": "ShowBackground", "v": _tokv("ShowBackgroundType", "always")})
     s += [{"p": p, "v": av(p, tk)} for p, tk in rstyles[r]]
     a = [{"p": "Display", "v": _tokv("DisplayType", x["v"]), "b": x["b"], "e": x["e"]} for x in ad["ranim"][r]]
     a += [{"p": p, "v": av(p, tk), "b": sb, "e": se} for p, tk, sb, se in ranims[r]]
@@ -62,6 +64,8 @@ def sdoc_of(ad, catvals):
   ini = []
   if ad.get("idisp"):
     ini.append({"p": "Display", "v": _tokv("DisplayType", ad["idisp"])})
+  if ad.get("ishowbg"):
+    ini.append({"p": "ShowBackground", "v": _tokv("ShowBackgroundType", "whenActive")})
   ini += [{"p": p, "v": av(p, tk)} for p, tk in ad.get("initials", [])]
   return {"n": n, "kind": ad["kind"], "parent": ad["parent"], "b": ad["b"], "e": ad["e"], "nr": nr, "rb": ad["rb"], "re": ad["re"],
           "sty": sty, "san": san, "rsty": rsty, "rsan": rsan, "ini": ini,
@@ -90,7 +94,7 @@ def build_input_of(sdoc):
   return ad, cat
 
 
-def observe_styles(doc, t, D, focus=(), t0=0):
+def observe_styles(doc, t, D, focus=(), t0=0, names=None):
   """[{R, k, st: [{p, v}]}] for every region and every element with an id e<k> of ISD.from_model(doc, t);
   with a non-empty focus only those properties are recorded (only those are judged)."""
   import ttconv.model as m
@@ -99,7 +103,7 @@ def observe_styles(doc, t, D, focus=(), t0=0):
   out = []
   for region in isd.iter_regions():
     rid = region.get_id()
-    R = int(rid[1:]) if rid and rid[0] == "r" and rid[1:].isdigit() else 0
+    R = names[rid] if names and rid in names else int(rid[1:]) if rid and rid[0] == "r" and rid[1:].isdigit() else 0
 
     def one(e, k):
       st = [{"p": p.__name__, "v": observed(p.__name__, e.get_style(p))} for p in e.iter_styles() if not focus or p.__name__ in focus]
@@ -119,7 +123,7 @@ def observe_styles(doc, t, D, focus=(), t0=0):
 def _job(job):
   import logging
   logging.getLogger("ttconv").setLevel(logging.CRITICAL + 10)
-  from .isdu import build_doc
+  from .isdu import build_doc, region_names
   rid = job["id"]
   try:
     if job.get("cat") == "stylecat":
@@ -136,7 +140,7 @@ def _job(job):
     times = job["times"]
     from .core import AltContext, alt_for
     with AltContext(alt_for(("styles", rid))):
-      obs = [observe_styles(doc, t, D, job.get("focus") or (), ad.get("t0", 0)) for t in times]
+      obs = [observe_styles(doc, t, D, job.get("focus") or (), ad.get("t0", 0), region_names(ad)) for t in times]
     rec = {"id": rid, "doc": {k: sdoc[k] for k in SDOC_FIELDS}, "times": times, "obs": obs, "focus": job.get("focus", [])}
     if job.get("edit") is None or job.get("cat") != "stylecat":
       return rec
@@ -175,7 +179,7 @@ def _job(job):
     if not changed:
       return rec
     sdoc2 = sdoc_of(ad2, cat)
-    obs2 = [observe_styles(doc, t, D, job.get("focus") or (), ad2.get("t0", 0)) for t in times]
+    obs2 = [observe_styles(doc, t, D, job.get("focus") or (), ad2.get("t0", 0), region_names(ad2)) for t in times]
     return [rec, {"id": rid + 1000000, "doc": {k: sdoc2[k] for k in SDOC_FIELDS}, "times": times, "obs": obs2, "focus": job.get("focus", []),
                   "ad2": ad2}]
   except Exception as ex:  # pylint: disable=broad-except
